@@ -202,7 +202,15 @@ impl<'a, R: CharRead> Lexer<'a, R> {
         // comment_1_char, just skip it
         self.skip_char('/');
 
-        let c = self.lookahead_char()?;
+        let c = match self.lookahead_char() {
+            Ok(c) => c,
+            Err(e) if e.is_unexpected_eof() => {
+                // a lone '/' in front of the end of the input is a token.
+                self.return_char('/');
+                return Ok(false);
+            }
+            Err(e) => return Err(e),
+        };
 
         if comment_2_char!(c) {
             self.skip_char(c);
@@ -613,7 +621,12 @@ impl<'a, R: CharRead> Lexer<'a, R> {
         s.push(self.read_char()?);
 
         loop {
-            let c = self.lookahead_char()?;
+            let c = match self.lookahead_char() {
+                Ok(c) => c,
+                // the end of the input ends the token.
+                Err(e) if e.is_unexpected_eof() => break,
+                Err(e) => return Err(e),
+            };
 
             if alpha_numeric_char!(c) {
                 self.skip_char(c);
